@@ -73,6 +73,23 @@ Proof. exact post_room. Qed.
 Theorem C17_post_never_blocks : forall cap its r, snd (post cap its r) <> PostBlocked.
 Proof. exact post_never_blocks. Qed.
 
+(* any number of concurrent callers, any interleaving of their steps: nobody is ever stalled in a send on a full queue
+   (the fullness test and the send are ONE step of the code: [post_atomic], generated from obsvReqSendC.go) *)
+Theorem C17_concurrent_posts_never_stall : forall cap reqs n sched items,
+  let '(items', pss) := psched cap reqs items (repeat PStart n) sched in Forall (fun ps => stalled cap items' ps = false) pss.
+Proof. exact posts_never_stall_from_start. Qed.
+
+(* what the theorem excludes is reachable when test and send are two steps: two callers, one free slot *)
+Example C17_check_then_send_would_stall :
+  let pstep2 cap items ps r := match ps with
+                               | PStart => if (cap <=? length items)%nat then (items, PDone PostErrChanFull) else (items, PPassed)
+                               | _ => pstep cap items ps r end in
+  let r := {| r_chain := 2; r_tx := [] |} in
+  let '(i1, a) := pstep2 1%nat [] PStart r in let '(i2, b) := pstep2 1%nat i1 PStart r in
+  let '(i3, a') := pstep 1%nat i2 a r in let '(i4, b') := pstep 1%nat i3 b r in
+  a' = PDone PostOk /\ stalled 1%nat i4 b' = true.
+Proof. vm_compute. split; reflexivity. Qed.
+
 (* ---------------------------------------------------------------- non-vacuity: the repo's own eviction scenario, plus a full queue *)
 Definition ex_req : req := {| r_chain := 1; r_tx := [xe5; x9c; x1b] |}.
 Definition ex_min (m : Z) : Z := m * 60 * 10 ^ 9.
@@ -112,3 +129,4 @@ Print Assumptions C17_dispatcher_never_blocks.
 Print Assumptions C17_post_full.
 Print Assumptions C17_post_room.
 Print Assumptions C17_post_never_blocks.
+Print Assumptions C17_concurrent_posts_never_stall.
